@@ -31,6 +31,19 @@ theorem C03_no_alias_quadratic (N : ℕ) (K : ℤ) (hK : 3 * K < N) (a b h : ℤ
     (hh : |h| ≤ K) (hd : (N : ℤ) ∣ a + b - h) : a + b = h :=
   band_no_alias_quadratic N K hK a b h ha hb hh hd
 
+/-- FLOAT-EVALUATED CUTOFF.  The implementation evaluates `frac·(N//2) − 1` in binary64 (N = 49, frac = 2/3 gives
+    14.999999999999998: band `K = 14`, one less than the rational `15`).  The check drives the model with the
+    effective rational fraction `(K_float + 1)/(N/2)`; its retained band is exactly `K_float` … -/
+theorem C03_effective_cutoff (c : Cfg ℂ) (K : ℕ) (hp : c.fp = K + 1) (hq : c.fq = c.N / 2) (hN : 0 < c.N / 2) :
+    Kc c = (K : ℤ) := Kc_of_effective c K hp hq hN
+
+/-- … and whenever `K_float` does not exceed the rational 2/3 (resp. 1/2) cutoff — compared exhaustively by the
+    check — the hypotheses `3K < N` (resp. `4K < N`) of the alias-free theorems below hold -/
+theorem C03_effective_cutoff_bounds (c : Cfg ℂ) (K : ℕ) (hp : c.fp = K + 1) (hq : c.fq = c.N / 2) (hN : 0 < c.N / 2) :
+    ((K : ℤ) * 3 ≤ 2 * ((c.N / 2 : ℕ) : ℤ) - 3 → 3 * Kc c < (c.N : ℤ)) ∧
+    ((K : ℤ) * 2 ≤ ((c.N / 2 : ℕ) : ℤ) - 2 → 4 * Kc c < (c.N : ℤ)) :=
+  ⟨Kc_effective_two_thirds c K hp hq hN, Kc_effective_half c K hp hq hN⟩
+
 /-- the mask keeps exactly the stored modes `h ≤ K` (1-D) -/
 theorem C03_mask (c : Cfg ℂ) (hD : c.D = 1) (hq : c.fq ≠ 0) (h : ℕ) :
     mask c h = if (h : ℤ) ≤ Kc c then 1 else 0 := mask_one c hD hq h
@@ -77,10 +90,12 @@ theorem C03_predealias (c : Cfg ℂ) (hD : c.D = 1) (hq : c.fq ≠ 0) (hN : 0 < 
     ∀ m : ℤ, |m| ≤ Kc c → DFT.dft c.N (nifft c (Transform.rfftnM 1 c.N x)) m = DFT.dft c.N x m :=
   ⟨nifft_bandLimited c hD hq hN _, dft_nifft_rfft c hD hq hN hK x hx⟩
 
-/-! ### the built-in terms (1-D, one channel, every `N ≥ 1`, real state `x`, `û = rfft x`) -/
+/-! ### the built-in terms (1-D, one channel, every `N ≥ 1`, real state `x`, `û = rfft x`).
+Hypotheses: any dealiasing fraction whose retained band satisfies `3·K < N` (quadratic terms; the documented 2/3 by
+`C03_cutoff_quadratic`, and its float evaluation by `C03_effective_cutoff_bounds`) resp. `4·K < N` (cubic; 1/2). -/
 
 /-- conservative convection `−b·½ ∂_x (P_K u)²`, projected -/
-theorem C03_convection_conservative (c : Cfg ℂ) (hD : c.D = 1) (hp : c.fp = 2) (hq : c.fq = 3) (hN : 0 < c.N)
+theorem C03_convection_conservative (c : Cfg ℂ) (hD : c.D = 1) (hq : c.fq ≠ 0) (hK : 3 * Kc c < (c.N : ℤ)) (hN : 0 < c.N)
     (scale : ℂ) (x : Array ℂ) (hx : IsRealField c.N x) (h : ℕ) (hh : h ≤ c.N / 2) :
     (mask c h = 1 →
         at2 (convection c 1 scale true true #[Transform.rfftnM 1 c.N x]) 0 h =
@@ -88,10 +103,10 @@ theorem C03_convection_conservative (c : Cfg ℂ) (hD : c.D = 1) (hp : c.fp = 2)
             (1 / (c.N : ℂ) * ∑ m ∈ Finset.Icc (-Kc c) (Kc c),
               trunc (Kc c) (DFT.dft c.N x) m * trunc (Kc c) (DFT.dft c.N x) ((h : ℤ) - m))) ∧
       (mask c h = 0 → at2 (convection c 1 scale true true #[Transform.rfftnM 1 c.N x]) 0 h = 0) :=
-  convection_one_alias_free c hD hp hq hN scale x hx h hh
+  convection_one_alias_free_of_cutoff c hD hq hK hN scale x hx h hh
 
 /-- non-conservative convection `−b (P_K u) ∂_x (P_K u)`, projected (both code paths) -/
-theorem C03_convection_nonconservative (c : Cfg ℂ) (hD : c.D = 1) (hp : c.fp = 2) (hq : c.fq = 3) (hN : 0 < c.N)
+theorem C03_convection_nonconservative (c : Cfg ℂ) (hD : c.D = 1) (hq : c.fq ≠ 0) (hK : 3 * Kc c < (c.N : ℤ)) (hN : 0 < c.N)
     (s : ℝ) (hs : c.s = (s : ℂ)) (scale : ℂ) (x : Array ℂ) (hx : IsRealField c.N x) (single : Bool) (h : ℕ)
     (hh : h ≤ c.N / 2) :
     (mask c h = 1 →
@@ -100,10 +115,10 @@ theorem C03_convection_nonconservative (c : Cfg ℂ) (hD : c.D = 1) (hp : c.fp =
             trunc (Kc c) (DFT.dft c.N x) m *
               (Complex.I * (c.s * (((h : ℤ) - m : ℤ) : ℂ)) * trunc (Kc c) (DFT.dft c.N x) ((h : ℤ) - m)))) ∧
       (mask c h = 0 → at2 (convection c 1 scale single false #[Transform.rfftnM 1 c.N x]) 0 h = 0) :=
-  convection_nc_one_alias_free c hD hp hq hN s hs scale x hx single h hh
+  convection_nc_one_alias_free_of_cutoff c hD hq hK hN s hs scale x hx single h hh
 
 /-- gradient norm `−b ½ (∂_x P_K u)²` (minus its mean when `zero_mode_fix`), projected -/
-theorem C03_gradient_norm (c : Cfg ℂ) (hD : c.D = 1) (hp : c.fp = 2) (hq : c.fq = 3) (hN : 0 < c.N)
+theorem C03_gradient_norm (c : Cfg ℂ) (hD : c.D = 1) (hq : c.fq ≠ 0) (hK : 3 * Kc c < (c.N : ℤ)) (hN : 0 < c.N)
     (s : ℝ) (hs : c.s = (s : ℂ)) (scale : ℂ) (zeroFix : Bool) (x : Array ℂ) (hx : IsRealField c.N x) (h : ℕ)
     (hh : h ≤ c.N / 2) :
     (mask c h = 1 →
@@ -113,10 +128,10 @@ theorem C03_gradient_norm (c : Cfg ℂ) (hD : c.D = 1) (hp : c.fp = 2) (hq : c.f
             Complex.I * (c.s * (m : ℂ)) * trunc (Kc c) (DFT.dft c.N x) m *
               (Complex.I * (c.s * (((h : ℤ) - m : ℤ) : ℂ)) * trunc (Kc c) (DFT.dft c.N x) ((h : ℤ) - m)))) ∧
       (mask c h = 0 → at2 (gradientNorm c 1 scale zeroFix #[Transform.rfftnM 1 c.N x]) 0 h = 0) :=
-  gradientNorm_one_alias_free c hD hp hq hN s hs scale zeroFix x hx h hh
+  gradientNorm_one_alias_free_of_cutoff c hD hq hK hN s hs scale zeroFix x hx h hh
 
 /-- quadratic polynomial `c₀ + c₁ P_K u + c₂ (P_K u)²`, projected (2/3 rule) -/
-theorem C03_polynomial_quadratic (c : Cfg ℂ) (hD : c.D = 1) (hp : c.fp = 2) (hq : c.fq = 3) (hN : 0 < c.N)
+theorem C03_polynomial_quadratic (c : Cfg ℂ) (hD : c.D = 1) (hq : c.fq ≠ 0) (hK : 3 * Kc c < (c.N : ℤ)) (hN : 0 < c.N)
     (c0 c1 c2 : ℂ) (x : Array ℂ) (hx : IsRealField c.N x) (h : ℕ) (hh : h ≤ c.N / 2) :
     (mask c h = 1 →
         at2 (polynomial c 1 [c0, c1, c2] #[Transform.rfftnM 1 c.N x]) 0 h =
@@ -124,10 +139,10 @@ theorem C03_polynomial_quadratic (c : Cfg ℂ) (hD : c.D = 1) (hp : c.fp = 2) (h
             c2 * (1 / (c.N : ℂ) * ∑ m ∈ Finset.Icc (-Kc c) (Kc c),
               trunc (Kc c) (DFT.dft c.N x) m * trunc (Kc c) (DFT.dft c.N x) ((h : ℤ) - m))) ∧
       (mask c h = 0 → at2 (polynomial c 1 [c0, c1, c2] #[Transform.rfftnM 1 c.N x]) 0 h = 0) :=
-  polynomial_quadratic_alias_free c hD hp hq hN c0 c1 c2 x hx h hh
+  polynomial_quadratic_alias_free_of_cutoff c hD hq hK hN c0 c1 c2 x hx h hh
 
 /-- cubic polynomial `c₃ (P_K u)³`, projected (1/2 rule) -/
-theorem C03_polynomial_cubic (c : Cfg ℂ) (hD : c.D = 1) (hp : c.fp = 1) (hq : c.fq = 2) (hN : 0 < c.N)
+theorem C03_polynomial_cubic (c : Cfg ℂ) (hD : c.D = 1) (hq : c.fq ≠ 0) (hK : 4 * Kc c < (c.N : ℤ)) (hN : 0 < c.N)
     (c3 : ℂ) (x : Array ℂ) (hx : IsRealField c.N x) (h : ℕ) (hh : h ≤ c.N / 2) :
     (mask c h = 1 →
         at2 (polynomial c 1 [0, 0, 0, c3] #[Transform.rfftnM 1 c.N x]) 0 h =
@@ -135,10 +150,10 @@ theorem C03_polynomial_cubic (c : Cfg ℂ) (hD : c.D = 1) (hp : c.fp = 1) (hq : 
             trunc (Kc c) (DFT.dft c.N x) a * trunc (Kc c) (DFT.dft c.N x) b *
               trunc (Kc c) (DFT.dft c.N x) ((h : ℤ) - a - b))) ∧
       (mask c h = 0 → at2 (polynomial c 1 [0, 0, 0, c3] #[Transform.rfftnM 1 c.N x]) 0 h = 0) :=
-  polynomial_cubic_alias_free c hD hp hq hN c3 x hx h hh
+  polynomial_cubic_alias_free_of_cutoff c hD hq hK hN c3 x hx h hh
 
 /-- Cahn–Hilliard `ν c₃ Δ (P_K u)³`, projected (1/2 rule) -/
-theorem C03_cahn_hilliard (c : Cfg ℂ) (hD : c.D = 1) (hp : c.fp = 1) (hq : c.fq = 2) (hN : 0 < c.N)
+theorem C03_cahn_hilliard (c : Cfg ℂ) (hD : c.D = 1) (hq : c.fq ≠ 0) (hK : 4 * Kc c < (c.N : ℤ)) (hN : 0 < c.N)
     (scale : ℂ) (x : Array ℂ) (hx : IsRealField c.N x) (h : ℕ) (hh : h ≤ c.N / 2) :
     (mask c h = 1 →
         at2 (cahnHilliard c scale #[Transform.rfftnM 1 c.N x]) 0 h =
@@ -146,7 +161,7 @@ theorem C03_cahn_hilliard (c : Cfg ℂ) (hD : c.D = 1) (hp : c.fp = 1) (hq : c.f
             trunc (Kc c) (DFT.dft c.N x) a * trunc (Kc c) (DFT.dft c.N x) b *
               trunc (Kc c) (DFT.dft c.N x) ((h : ℤ) - a - b)) * scale) ∧
       (mask c h = 0 → at2 (cahnHilliard c scale #[Transform.rfftnM 1 c.N x]) 0 h = 0) :=
-  cahnHilliard_one_alias_free c hD hp hq hN scale x hx h hh
+  cahnHilliard_one_alias_free_of_cutoff c hD hq hK hN scale x hx h hh
 
 /-! ### zero outside the retained band: every dimension, channel count, input -/
 
